@@ -41,9 +41,9 @@ CLAIMS = {
    design="§5 C08"),
  'C16': dict(
    text="Proved for every non-empty constraint of any length, every integer timestamp, clock and threshold, from any stack with room: OP_CHECK_TIMESTAMP pops c and pushes true exactly when t >= c and (thr <= 0 or t - now < thr) (c read unsigned); "
-        "OP_CHECK_EPOCH exactly when c - now < thr; the empty constraint is an error; the value left by the before-lock is characterised exactly (t < ts OR the future-slack clause), which is the full statement of known finding K1, with the partial theorem (= t < ts when the slack clause is off) and a decide-checked K1 witness. "
+        "OP_CHECK_EPOCH exactly when c - now < thr; the empty constraint is an error; the value left by the before-lock is characterised exactly (t < ts OR the future-slack clause), which is the full statement of known finding K1, with the partial theorem (= t < ts when the slack clause is off) and a decide-checked K1 witness. Lock level (Props/C16Locks.lean, the builders' bytes executed symbolically): the after-lock leaves exactly the Boolean ts <= t and (thr <= 0 or t - now < thr) for every ts >= 0 (afterLock_run), its verify form passes exactly in that window and is an error otherwise (afterLockVerify_run), and the before-lock leaves a value that is true exactly for t < ts or t ahead of the clock by the threshold or more (beforeLock_run - K1 at lock level). "
         "Tie: exhaustive +-2 grid around every boundary x constraint encodings of 1-9 bytes x thresholds with a pinned fractional clock on the four instructions and the three lock builders (bytes compared with the model's builders), each grid point judged on the implementation alone by the documented formula.",
-   note="the builders' bytes are tied differentially (BUILD lines); the after/between lock end-to-end statements follow from the instruction theorems by composition that is exercised, not separately proved.",
+   note="the builders' bytes are tied differentially (BUILD lines); the between-lock (after-verify followed by before) is the composition of the two lock theorems, exercised on the grid but not stated as one theorem.",
    technique="Lean 4 proof by symbolic execution of the instruction's op term (omega on Int) + exhaustive boundary-grid oracle + differential correspondence",
    design="§5 C16"),
  'C20': dict(
